@@ -425,6 +425,29 @@ theorem enough_streams_ext_int_removed (iPu pe nv : ℝ) (hpe : 0 < pe) (hnv : 0
   ext_int_removed iPu pe nv hpe.ne' E Hk Msk _ G Wp
     (least_singular_vectors_in_noise_space pe nv hpe.le hnv E U VHre S hn hsvd hU hV hS0 hsort hrank).2.2.1
 
+/-- the SVD contract of `least_singular_vectors_in_noise_space` is satisfiable for EVERY interference
+    channel, interference power `pe ≥ 0` and noise variance `σ² ≥ 0` (spectral decomposition of the
+    positive semidefinite `Re_k`, eigenvalues sorted): the theorem is nowhere vacuous, and a correct
+    `np.linalg.svd` can always deliver what the contract asks -/
+theorem svd_contract_satisfiable (pe nv : ℝ) (hpe : 0 ≤ pe) (hnv : 0 ≤ nv) (E : Mat ℂ N r) :
+    ∃ (U VHre : Mat ℂ N N) (S : Fin N → ℝ),
+      covExtInt pe nv E = matMul (matMul U (diagM (fun i => Cx.ofReal (S i)))) VHre ∧
+      matMul (cT U) U = eye ∧ matMul VHre (cT VHre) = eye ∧ (∀ i, 0 ≤ S i) ∧
+      ∀ i j : Fin N, i ≤ j → S j ≤ S i :=
+  Pf.exists_sorted_svd_model pe nv hpe hnv E
+
+/-- the ordering clause of the SVD contract is NEEDED (the code takes the LAST `n` rows of `V_H`
+    "since the SVD gives the values in descending order"): with the interferer on the last antenna,
+    `Re = 1·diag(σ², σ², 4pe + σ²)·1` is a factorisation with unitary factors and non-negative
+    values, `n = 2 ≤ 3 − rank E`, and yet the last singular value is not the noise variance -/
+theorem sorted_order_needed (pe nv : ℝ) (hpe : 0 < pe) (hnv : 0 < nv) :
+    ∃ (E : Mat ℂ 3 1) (U VHre : Mat ℂ 3 3) (S : Fin 3 → ℝ),
+      covExtInt pe nv E = matMul (matMul U (diagM (fun i => Cx.ofReal (S i)))) VHre ∧
+      matMul (cT U) U = eye ∧ matMul VHre (cT VHre) = eye ∧ (∀ i, 0 ≤ S i) ∧ 2 ≤ 3 - (toM E).rank ∧
+      ¬ ∀ j : Fin 2, S (revIdx (by norm_num : 2 ≤ 3) j) = nv :=
+  ⟨Pf.Ex3.E', eye, eye, Pf.Ex3.S' pe nv, Pf.Ex3.svd' pe nv, Pf.Ex3.unitary.1, Pf.Ex3.unitary.2,
+    Pf.Ex3.S'_nonneg pe nv hpe.le hnv.le, Pf.Ex3.two_streams', fun h => Pf.Ex3.S'_last pe nv hpe (h 0)⟩
+
 /-- non-vacuity (`N = 3` antennas, one interferer `E = (2i, 0, 0)ᵀ`, `n = 2` streams kept): every
     hypothesis of `least_singular_vectors_in_noise_space` / `enough_streams_ext_int_removed` is
     satisfied, for every `pe ≥ 0` and `σ² > 0`, by `Re = 1·diag(4pe + σ², σ², σ²)·1` -/
